@@ -285,11 +285,17 @@ def replayable(sc, r):
 
 
 def from_code_under_test(tb):
-    """Was this exception raised by (or underneath) the aiuti sources - i.e. is there an aiuti frame after the
-    last frame of the harness in the traceback text?"""
+    """Was this exception raised by the code under test?  Yes if there is an aiuti frame after the last harness
+    frame of the traceback text, or if it was raised at the boundary: the innermost frame is a driver's call into
+    the API (e.g. TypeError from a wrapper that passes a wrong keyword on).  Exceptions whose innermost frame is
+    in the scheduler / pool / TLC glue are failures of the harness."""
     frames = [f.replace('\\', '/') for f in re.findall(r'File "([^"]+)", line \d+', tb or '')]
+    if not frames:
+        return False
     last_h = max([i for i, f in enumerate(frames) if '/harness/' in f] or [-1])
-    return any('/aiuti/' in f for f in frames[last_h + 1:])
+    if any('/aiuti/' in f for f in frames[last_h + 1:]):
+        return True
+    return '/harness/drivers/' in frames[-1]
 
 
 def generic_replay(mod, prop, path):
